@@ -52,10 +52,10 @@ def select(prop, t, sd):
 
 BOUNDS = {'quick': 4, 'thorough': 6}
 
-def run_parser_property(prop, evals=None, N=None, filt=None, level_text='', job=None, extra=None):
+def run_parser_property(prop, evals=None, N=None, filt=None, level_text='', job=None, extra=None, grammars=None):
     t0 = time.time(); t = tier(); sd = seed()
     harness.build_llw()
-    gs = select(prop, t, sd)
+    gs = grammars(t, sd) if grammars else select(prop, t, sd)
     if filt: gs = [g for g in gs if filt(g)]
     N = N or BOUNDS[t]
     opts = dict(evals=evals or [prop], validate=40 if t == 'quick' else 400, seed=sd)
@@ -145,6 +145,13 @@ def main(argv):
     if prop == 'C16':
         return run_parser_property(prop, job=props.c16_job,
                                    extra=lambda rs: dict(differential_comparisons=sum(r.get('comparisons', 0) for r in rs), extra_forks_on_trivia_free_side=sum(r.get('extra_forks', 0) for r in rs)))
+    if prop == 'C07':
+        from . import c07
+        return run_parser_property(prop, job=c07.c07_job, N={'quick': 5, 'thorough': 7}[tier()],
+                                   grammars=lambda t, sd: c07.family(sd, {'quick': 12, 'thorough': 120}[t]),
+                                   extra=lambda rs: dict(operator_expressions_checked=sum(r.get('sentences', 0) for r in rs),
+                                                         oracle_selfchecks=sum(r.get('oracle_selfchecks', 0) for r in rs),
+                                                         trees_enumerated_for_selfcheck=sum(r.get('trees_enumerated', 0) for r in rs)))
     print('unknown property', prop); return 2
 
 if __name__ == '__main__':
